@@ -99,3 +99,14 @@ PROPS['C05'] = dict(
                 'compiler functions are listed in the evidence as they are built.',
     trusted_base=['TatSu reports the failure position'], assumptions=['well-formed ASTs: PIVOT BY has two columns, placeholders named by "" or an identifier'],
 )
+
+PROPS['C18'] = dict(
+    level='other', harness='h18', min_t1=0,
+    explanation='The property quantifies over a finite domain and the harness evaluates the function contracts natively on all of it '
+                '(exhaustive: 73 414 dates x units/fields/offsets, account names, strings, decimals, cast pool). T1 obligations (all inputs, '
+                'not only the domain) on the date arithmetic, calendar truncation/part functions, casts and numeric functions are listed in '
+                'the evidence as they are built; week/ISO functions, date_bin, regex and account functions depend on dateutil/re/beancount and '
+                'are bounded only.',
+    trusted_base=['Python datetime, re, textwrap, dateutil.relativedelta and beancount.core.account as reference implementations of the calendar / regex / account laws'],
+    assumptions=[],
+)
